@@ -102,7 +102,7 @@ def floatToRat (f : Float) : Option Rat :=
 def floatOps : NumOps Float :=
   { add := (· + ·), sub := (· - ·), mul := (· * ·), div := (· / ·), ofNat := Float.ofNat,
     lt := fun a b => decide (a < b), zero := 0.0,
-    maxVal := Float.ofBits 0x7FEFFFFFFFFFFFFF, negMaxVal := Float.ofBits 0xFFEFFFFFFFFFFFFF }
+    maxVal := Float.ofBits 0x7FF0000000000000, negMaxVal := Float.ofBits 0xFFF0000000000000 }
 
 /-- bits of a double, both zeros printed as +0 (sort order of -0/+0 is unspecified in Go). -/
 def bits (f : Float) : String := if f == 0.0 then "0" else if f.isNaN then "nan" else toString f.toBits.toNat
